@@ -114,16 +114,11 @@ where
     {
         use crate::util::Consume;
 
+        // A detach from the remote peer that is already waiting must be seen (and answered)
+        // before another delivery is started on the link, so poll for it first
         tokio::select! {
-            tag = self.flow_state.consume(1) => {
-                // link-credit is defined as
-                // "The current maximum number of messages that can be handled
-                // at the receiver endpoint of the link"
+            biased;
 
-                // Draining should already set the link credit to 0, causing
-                // sender to wait for new link credit
-                Ok(tag)
-            },
             frame = detached => { // cancel safe
                 match frame {
                     // If remote has detached the link
@@ -158,6 +153,15 @@ where
                         }
                     }
                 }
+            },
+            tag = self.flow_state.consume(1) => {
+                // link-credit is defined as
+                // "The current maximum number of messages that can be handled
+                // at the receiver endpoint of the link"
+
+                // Draining should already set the link credit to 0, causing
+                // sender to wait for new link credit
+                Ok(tag)
             }
         }
     }
